@@ -85,4 +85,18 @@ PROPS = {
         trusted=["net/http below http.DefaultTransport (the recorder replaces it; Collector.client has a nil Transport)", "Go runtime, encoding/json"],
         timeout={"quick": 900, "thorough": 3600},
     ),
+    "C15": dict(
+        lean_modules=["Liftbridge.Props.C15"],
+        gen_sources=["server/api.go", "server/authz.go", "server/signal.go"],
+        go_pkg="./server", test="TestVerifC15",
+        level="proof",
+        assumptions=[
+            "casbin's Enforce is an arbitrary predicate (client, resource, action) -> Bool; the theorems quantify over all of them",
+            "a call is an `effect` iff its callee text matches the hand-written sink table of extract/gen_handlers.go or is an api.go method that syntactically reaches one (no go/types); the classification is printed in Gen/Handlers.lean (effectCalls, otherCalls, helperReach, skippedFuncLits) for audit",
+            "conditions other than the authorisation test are nondeterministic (may-analysis over every syntactic path); one generic iteration stands for every iteration of the publish loop",
+            "the client id in the context is the one authz.go took from the verified TLS certificate (the interceptors are not exercised: handlers are called in-process with the context key set)",
+        ],
+        trusted=["casbin (policy file parsing and matching)", "NATS per-connection per-subject FIFO delivery (used by the sentinel that flushes asynchronous publishes)"],
+        timeout={"quick": 900, "thorough": 3600},
+    ),
 }
